@@ -17,7 +17,7 @@ class C09(Prop):
             "the log, DSBs between packets for TLS-only captures, file+DSB combined); oracle: output bytes identical to the "
             "baseline's; one evaluation = one export; non-trivial = variant input differs from baseline input and the "
             "baseline exported data; distinct = (scenario, variant)")
-    reach = ["perm", "crlf", "deco", "upper", "dsb_only_no_s", "dsb_split", "dsb_between_packets", "both", "no_final_newline", "dsb_no_final_newline", "both_partial_file", "dsb_plus_comment_only_dsb", "dsb_before_idb", "quic_world",
+    reach = ["perm", "crlf", "deco", "upper", "dsb_only_no_s", "dsb_split", "dsb_between_packets", "both", "no_final_newline", "dsb_no_final_newline", "both_partial_file", "dsb_plus_comment_only_dsb", "dsb_before_idb", "dsb_with_tsoffset", "quic_world",
              "other_cwd"]
 
     def plan(self, tier):
@@ -53,6 +53,7 @@ class C09(Prop):
             ["dsb_plus_comment_only_dsb", {"mode": "dsb", "dsb": [[0, 0]],
                                            "extra_dsb": [[0, V.choice(["# k\n", "#\n", "\n", "# exported by tap0\n", "# a\r\n\r\n"])]]}],
             ["dsb_before_idb", {"mode": "dsb", "dsb": [[0, 0], [0, 1]], "before_idb": True}],
+            ["dsb_with_tsoffset", {"mode": "dsb", "dsb": [[0, 0]], "tsoffset": V.choice([1, -1, 3600, -86400, 100000])}],
             ["both_partial_file", {"mode": "both", "dsb": [[0, 0]], "file_part": V.choice([2, 3])}],
             ["both_partial_file", {"mode": "both", "dsb": [[0, 0], [0, 1]], "file_part": 2, "perm_seed": V.bits(30)}],
         ]
@@ -103,7 +104,10 @@ class C09(Prop):
                 out.count("enumeration_truncated_by_budget")
                 break
             s2 = copy.deepcopy(spec)
-            s2["keychan"] = {k: v for k, v in kc.items() if k not in ("cwd", "before_idb")}
+            s2["keychan"] = {k: v for k, v in kc.items() if k not in ("cwd", "before_idb", "tsoffset")}
+            if kc.get("tsoffset"):
+                # the interface's if_tsoffset must not matter for key delivery (timestamps stay the same instants)
+                s2["container"] = dict(s2.get("container", {}), tsoffset=kc["tsoffset"])
             if kc.get("before_idb"):
                 s2["container"] = dict(s2.get("container", {}), dsb_before_idb=True)
             ex = world.expand(s2)
